@@ -59,6 +59,12 @@ def main():
         mp = os.path.join(out_root, d, "meta.json")
         if os.path.isfile(mp):
             meta = json.load(open(mp))
+            if os.environ.get("LSA_IMPORT_ONLY_NEW"):
+                # keep the recorded measurement (used when only new seeds are added and
+                # neither the rules' shared parts nor the evaluator changed)
+                rows.append((meta["property"], meta["name"], meta["detected_by"]))
+                done.add(d)
+                continue
             hits = run_checks(os.path.join(out_root, d, "patch.diff"))
             meta["detected_by"], meta["reports"] = sorted(hits), hits
             json.dump(meta, open(mp, "w"), indent=1)
@@ -99,7 +105,7 @@ def main():
                 "origin": "written by an independent sub-agent that saw only the property "
                           "text and a scratch worktree of /repo (nothing from /verif)"
                           + ("; second round: told which earlier seeds to avoid repeating"
-                             if SRC.endswith(("wt2", "wt3", "wt4", "wt5", "wt6", "wt7", "wt8")) else ""),
+                             if SRC.endswith(("wt2", "wt3", "wt4", "wt5", "wt6", "wt7", "wt8", "wt9")) else ""),
                 "needs_to_manifest": _needs(notes),
                 "confirmed_by_me": {
                     "how": "tools/confirm_seed.sh in a fresh scratch worktree of /repo: demo at "
